@@ -37,7 +37,8 @@ svars == << cfg, tcb, ck, ckx, viol, kf, last >>
 CONSTANT KnownKeys
 
 NoRep == << >>
-Silence(log, n) == [ kind |-> "silence", rep |-> NoRep, log |-> log, tcb |-> n, aux |-> [x |-> 0] ]
+NoAux == [ inflated |-> -1, uaddr |-> << >>, chain |-> 0, grp |-> 0 ]
+Silence(log, n) == [ kind |-> "silence", rep |-> NoRep, log |-> log, tcb |-> n, aux |-> NoAux ]
 
 (***************************************************************************)
 (* Flow identity and TCP policy                                            *)
@@ -257,10 +258,13 @@ NaOK(b, r) ==
               \cup V("C05", "na-tlla-option", U8(r, 78) = 2 /\ U8(r, 79) = 1 /\ Bytes(r, 80, 86) = cfg.mac)
               \cup V("C02", "advertised-address-on-self-list", Handled(cfg, Bytes(r, 62, 78)))
 
-MirrorTcp(b, r) ==
+MirrorTcpS(b, r, shifts) ==
     LET t == TcpCtx(b)  rs == L4Start(r) IN
     MirrorEth(b, r) \cup MirrorIp(b, r, t.dst)
-    \cup V("C03", "ports-swapped", TcpSport(r, rs) = t.dport /\ TcpDport(r, rs) = t.sport)
+    \cup V("C03", "ports-swapped",
+           /\ TcpDport(r, rs) = t.sport
+           /\ \E sh \in shifts : TcpSport(r, rs) = (t.dport + sh) % 65536)
+MirrorTcp(b, r) == MirrorTcpS(b, r, { 0 })
 
 (* C06 *)
 SynAckOK(b, r) ==
@@ -286,7 +290,7 @@ DataReplyOK(b, r) ==
     LET t == TcpCtx(b)  rs == L4Start(r)
         hasData == Len(r) > rs + 20
     IN
-    MirrorTcp(b, r)
+    MirrorTcpS(b, r, AppPortShift("tcp", StreamBefore(t.flow), TcpPayload(b)))
     \cup V("C07", "data-reply-has-ack", HasFlag(TcpFlags(r, rs), F_ACK))
     \cup V("C07", "psh-iff-application-data",
            TcpFlags(r, rs) = (IF hasData THEN F_ACK + F_PSH ELSE F_ACK))
@@ -295,11 +299,11 @@ DataReplyOK(b, r) ==
 
 UdpReplyOK(b, r) ==
     LET u == UdpCtx(b)  rs == L4Start(r)
-        shift == AppPortShift(UdpPayload(b), AppCtxUdp(b))
     IN
     MirrorEth(b, r) \cup MirrorIp(b, r, u.dst)
     \cup V("C03", "ports-swapped",
-           UdpSport(r, rs) = (u.dport + shift) % 65536 /\ UdpDport(r, rs) = u.sport)
+           /\ UdpDport(r, rs) = u.sport
+           /\ \E sh \in AppPortShift("udp", << >>, UdpPayload(b)) : UdpSport(r, rs) = (u.dport + sh) % 65536)
 
 AppReplyOf(r) == LET rs == L4Start(r) IN
     IF (IF EthType(r) = ETH_IP4 THEN Ip4Proto(r) ELSE Ip6Nh(r)) = PROTO_UDP
@@ -521,6 +525,17 @@ KnownKey(v, b, obs) ==
     ELSE IF ExpectL2(b).kind = "data" THEN AppKnownKey(v, "tcp", StreamBefore(TcpCtx(b).flow), TcpPayload(b))
     ELSE "-"
 
+(* outcome action taken, with the application-level class for payload-bearing frames *)
+OutcomeLabel(b) ==
+    LET o == ExpectL2(b) IN
+    IF o.kind = "udp"
+    THEN LET c == Classify("udp", << >>, UdpPayload(b), AppCtxUdp(b)) IN o.name \o "/" \o c.proto \o "/" \o c.ans \o "/" \o c.why
+    ELSE IF o.kind = "data"
+    THEN LET t == TcpCtx(b)
+             c == Classify("tcp", StreamBefore(t.flow), TcpPayload(b), AppCtxTcp(b))
+         IN o.name \o "/" \o c.proto \o "/" \o c.ans \o "/" \o c.why
+    ELSE o.name
+
 Handle(b, obs) ==
     LET j == Judge(b, obs)
         known == { v \in j : KnownKey(v, b, obs) \in KnownKeys }
@@ -530,7 +545,7 @@ Handle(b, obs) ==
     /\ tcb' = AfterTcb(b, obs)
     /\ ck' = AfterCk(b, obs)
     /\ ckx' = AfterCkx(b, obs)
-    /\ last' = ExpectL2(b).name
+    /\ last' = OutcomeLabel(b)
     /\ UNCHANGED cfg
 
 Reconfigure(c) ==
